@@ -194,4 +194,15 @@ OBLIGATIONS = [
      "encodes": ["explorerscript.ssb_converting.compiler.compile_handlers.functions.for_target_def.ForTargetDefCompileHandler.collect",
                  "explorerscript.ssb_converting.compiler.compile_handlers.atoms.integer_like.IntegerLikeCompileHandler.collect"],
      "stubs": ["For_target_defContext / Integer_likeContext replaced by stand-ins with the token accessors the handlers call"]},
+    {"id": "C16.S5", "module": "harness.hC01", "func": "h_layout",
+     "what": "layout is not meaning: the real compile() on the real parse tree of a template whose tokens are moved as if dl "
+             "line breaks and dc blanks were inserted before token k yields the same ops (shared harness with C08.S1, which "
+             "also checks the source map)",
+     "cases": list(range(6)), "timeout": {"quick": 280, "thorough": 900},
+     "bounds": "6 templates covering every statement and block kind; k over every token, dl and dc unbounded non-negative "
+               "integers; token texts unchanged (comments and blank characters never reach the parser: lexer, enumerated in E6)",
+     "encodes": ["explorerscript.ssb_converting.ssb_compiler.ExplorerScriptSsbCompiler.compile",
+                 "explorerscript.ssb_converting.compiler.compiler_visitor.statement_visitor.StatementVisitor"],
+     "stubs": ["ExplorerScriptReader replaced by a stand-in handing out the real parse tree of the template (lexing and "
+               "parsing run untraced); token positions rewritten by the harness"]},
 ]
